@@ -1,0 +1,59 @@
+//go:build verif
+
+package asm
+
+// Verification hook (build tag "verif" only): exposes the Emitter's complete internal state so
+// that the /verif conformance harness can compare it with the abstract state of Emitter.tla after
+// every call.  Read-only; copies everything.
+
+type VerifLine struct {
+	Type      int
+	Address   uint32
+	ByteCount int
+	Ins       string
+	Label     string
+}
+
+type VerifState struct {
+	N            int
+	Cap          int
+	HasTarget    bool
+	Address      uint32
+	Base         uint32
+	BaseSet      bool
+	Flags        uint8
+	GenerateText bool
+	Labels       map[string]uint32
+	DanglingS8   map[string][]uint32
+	DanglingU16  map[string][]uint32
+	Lines        []VerifLine
+}
+
+func (a *Emitter) VerifState() VerifState {
+	s := VerifState{
+		N:            a.n,
+		Cap:          len(a.code),
+		HasTarget:    a.code != nil,
+		Address:      a.address,
+		Base:         a.base,
+		BaseSet:      a.baseSet,
+		Flags:        uint8(a.flagsTracker),
+		GenerateText: a.generateText,
+		Labels:       make(map[string]uint32, len(a.labels)),
+		DanglingS8:   make(map[string][]uint32, len(a.danglingS8)),
+		DanglingU16:  make(map[string][]uint32, len(a.danglingU16)),
+	}
+	for k, v := range a.labels {
+		s.Labels[k] = v
+	}
+	for k, v := range a.danglingS8 {
+		s.DanglingS8[k] = append([]uint32(nil), v...)
+	}
+	for k, v := range a.danglingU16 {
+		s.DanglingU16[k] = append([]uint32(nil), v...)
+	}
+	for _, l := range a.lines {
+		s.Lines = append(s.Lines, VerifLine{int(l.asmLineType), l.address, l.byteCount, l.ins, l.label})
+	}
+	return s
+}
